@@ -867,7 +867,9 @@ func (g *streamGen) arrayForms(at events.ArrayType, count uint64, data []byte, s
 // Chunked rewrites an array (not media/custom) into begin/chunk/data events at random valid boundaries.
 func Chunked(r *rand.Rand, at events.ArrayType, count uint64, data []byte, stringlike bool) []ev.Event {
 	out := []ev.Event{{K: ev.ABEGIN, AT: at}}
-	return append(out, ChunkBody(r, at.ElementSize(), count, data, stringlike)...)
+	// a third of the chunked arrays deliver their data in events that may end inside an element (the validator counts
+	// bytes, so such a stream is rules-valid; receivers have to reassemble the elements)
+	return append(out, ChunkBodyOpt(r, at.ElementSize(), count, data, stringlike, r.Intn(3) != 0)...)
 }
 
 // ChunkBody produces chunk/data events for the payload. Chunk boundaries are element aligned
